@@ -283,10 +283,11 @@ def gen_command(rng, max_events=8):
             initial.append(["-m", str(a), str(b), spell(rng, r)])
         else:
             initial.append(["-ma"] + [("x" if x == y else (spell(rng, r) if (x, y) == (a, b) else "0")) for x in range(1, npop + 1) for y in range(1, npop + 1)])
-        events.append((i, ["-em", spell(rng, grid[i]), str(a), str(b), rng.choice(["0", "0.0"])]))
+        mid = rng.choice(["0", "0.0", spell(rng, 4 * N0 * rng.choice([m for m in MIGS if 4 * N0 * m != r] or MIGS))])
+        events.append((i, ["-em", spell(rng, grid[i]), str(a), str(b), mid]))
         events.append((j, ["-em", spell(rng, grid[j]), str(a), str(b), spell(rng, r)]))
         events.sort(key=lambda e: e[0])
-        tags.add("mig_off_on_same_rate")
+        tags.add("mig_off_on_same_rate" if mid in ("0", "0.0") else "mig_r1_r2_r1")
     # most commands end every growth phase (a growing root deme cannot be represented)
     if events and rng.random() < 0.8:
         ti = max(t for t, _ in events)
